@@ -62,6 +62,13 @@ def check(ctx):
         "the pattern/text role convention of WavefrontAligner(ref)(query) (checked only for being the same at tally and emission)",
     ]
     ctx.assumptions.append("pywfa: with clip_cigar=False, result.cigartuples and aligner.cigarstring describe the same end-to-end alignment")
+    # mechanisms this property rests on (see shared.py): a change there is reported here as well
+    from . import shared as _sh
+
+    _sh.gaf_reader(ctx)
+    _sh.tag_parser(ctx)
+    _sh.graph_loader(ctx)
+    _sh.cli_layer(ctx, "gaftools.cli.realign")
 
 
 def r12_1(ctx, m, schema):
